@@ -32,9 +32,35 @@ def _str_keys_written(f: Func) -> Set[str]:
     return out
 
 
-def _str_keys_read(f: Func) -> Set[str]:
-    """Constant string keys read: d["k"] (load), d.get("k"), "k" in d"""
+def _str_keys_read(f: Func, model=None) -> Set[str]:
+    """Constant string keys read: d["k"] (load), d.get("k"), "k" in d - also with k running over a constant tuple of
+    strings (`for k in ("a", "b")`, or a module-level constant of that form)."""
     out: Set[str] = set()
+    # loop / comprehension variables that run over a constant tuple of strings
+    over: Dict[str, Set[str]] = {}
+
+    def const_strs(e: ast.AST) -> Optional[Set[str]]:
+        if isinstance(e, (ast.Tuple, ast.List)) and e.elts and all(isinstance(x, ast.Constant) and isinstance(x.value, str) for x in e.elts):
+            return {x.value for x in e.elts}
+        if isinstance(e, ast.Name) and model is not None and f.module in model.modules:
+            for st in model.modules[f.module].body:
+                if isinstance(st, ast.Assign) and len(st.targets) == 1 and isinstance(st.targets[0], ast.Name) and st.targets[0].id == e.id:
+                    return const_strs(st.value)
+        return None
+
+    for n in iter_own(f.node):
+        if isinstance(n, (ast.For, ast.comprehension)) and isinstance(n.target, ast.Name):
+            cs = const_strs(n.iter)
+            if cs:
+                over.setdefault(n.target.id, set()).update(cs)
+    for n in iter_own(f.node):
+        key = None
+        if isinstance(n, ast.Subscript) and isinstance(n.ctx, ast.Load) and isinstance(n.slice, ast.Name):
+            key = n.slice.id
+        if isinstance(n, ast.Call) and isinstance(n.func, ast.Attribute) and n.func.attr in ("get", "pop") and n.args and isinstance(n.args[0], ast.Name):
+            key = n.args[0].id
+        if key in over:
+            out |= over[key]
     for n in iter_own(f.node):
         if isinstance(n, ast.Subscript) and isinstance(n.ctx, ast.Load) and isinstance(n.slice, ast.Constant) and isinstance(n.slice.value, str):
             out.add(n.slice.value)
@@ -124,7 +150,7 @@ def keys(ctx: Ctx) -> List[Ob]:
                       "" if ok else "load() recognises files by the 'nutree/' generator tag"))
     # --- dict form
     td, fd = m.func("Node.to_dict"), m.func("Node.from_dict")
-    wk, rk = _str_keys_written(td), _str_keys_read(fd)
+    wk, rk = _str_keys_written(td), _str_keys_read(fd, m)
     for k in sorted(wk):
         ok = k in rk
         obs.append(ctx.ob("KEYS", ["C14"], td, f"dict-form key '{k}' written by to_dict is read by from_dict", None, ok,
@@ -647,6 +673,9 @@ def fmt(ctx: Ctx) -> List[Ob]:
             ok = any(k.arg == "mapper" and norm(k.value) == "mapper" for k in recs[0].keywords)
             for ad in adds:
                 kw = {k.arg: RN(fd, ad, k.value) for k in ad.keywords}
+                if any(k.arg is None for k in ad.keywords) and "data_id" not in kw:
+                    ok = None if ok else ok  # **kwargs built elsewhere: not read here
+                    continue
                 ok = ok and kw.get("data_id") == f"{iv}.get('data_id')" and "before" not in kw
             # data_id is read after the mapper ran
             mcs = [c for c in ast.walk(lp) if isinstance(c, ast.Call) and norm(c.func) == "call_mapper"]
